@@ -82,10 +82,26 @@ type c16Row struct {
 	Mode   string // on, local, off, garbage, missing
 	Token  string // absent, fresh, stale
 	Dir    string // ok, uncreatable
+	Text   int    // which spelling of the mode file (see c16ModeTexts); 0 = the plain one
+}
+
+// c16ModeTexts: spellings of a mode file that all read as the same mode (the mode is the first word;
+// a second word that is not a date leaves the date unknown).
+var c16ModeTexts = map[string][]string{
+	"on":    {"on 2020-01-01", "on", "on\n", "on  2020-01-01", "on 2020-1-1", " on 2020-01-01 \n"},
+	"local": {"local", "local 2020-02-02", "local\n", "local  x"},
+	"off":   {"off 2020-01-01", "off", " off \n", "off  2024-01-05", "off 2024-1-5", "off 2024-01-05T10:00:00Z", "off later"},
+}
+
+func (r c16Row) modeText() string {
+	if v := c16ModeTexts[r.Mode]; len(v) > 0 {
+		return v[r.Text%len(v)]
+	}
+	return ""
 }
 
 func (r c16Row) String() string {
-	return fmt.Sprintf("marker=%s crash=%v upload=%v mode=%s token=%s dir=%s", r.Marker, r.Crash, r.Upload, r.Mode, r.Token, r.Dir)
+	return fmt.Sprintf("marker=%s crash=%v upload=%v mode=%s(%q) token=%s dir=%s", r.Marker, r.Crash, r.Upload, r.Mode, r.modeText(), r.Token, r.Dir)
 }
 
 // c16Model: how many children the row must launch, and with which upload flag.
@@ -157,12 +173,8 @@ func c16RunRow(t c16Fataler, base, exe string, r c16Row) {
 		tdir = filepath.Join(root, "file", "tele")
 	} else {
 		switch r.Mode {
-		case "on":
-			os.WriteFile(filepath.Join(tdir, "mode"), []byte("on 2020-01-01"), 0666)
-		case "local":
-			os.WriteFile(filepath.Join(tdir, "mode"), []byte("local"), 0666)
-		case "off":
-			os.WriteFile(filepath.Join(tdir, "mode"), []byte("off 2020-01-01"), 0666)
+		case "on", "local", "off":
+			os.WriteFile(filepath.Join(tdir, "mode"), []byte(r.modeText()), 0666)
 		case "garbage":
 			os.WriteFile(filepath.Join(tdir, "mode"), []byte("enabled!"), 0666)
 		}
@@ -297,10 +309,12 @@ func c16AllRows() []c16Row {
 			for _, up := range []bool{false, true} {
 				for _, mode := range []string{"on", "local", "off", "garbage", "missing"} {
 					for _, tok := range []string{"absent", "fresh", "stale"} {
-						rows = append(rows, c16Row{m, crash, up, mode, tok, "ok"})
+						for v := 0; v < max(1, len(c16ModeTexts[mode])); v++ {
+							rows = append(rows, c16Row{m, crash, up, mode, tok, "ok", v})
+						}
 					}
 				}
-				rows = append(rows, c16Row{m, crash, up, "missing", "absent", "uncreatable"})
+				rows = append(rows, c16Row{m, crash, up, "missing", "absent", "uncreatable", 0})
 			}
 		}
 	}
